@@ -41,10 +41,10 @@ LEVEL_TEXT = (
 
 
 @functools.lru_cache(maxsize=4)
-def pvt(name):
+def pvt(name, p_unit=1.0):
     import pandas as pd
 
-    return pd.DataFrame(tables.build({"family": "shipped", "name": name, "thin": 1}))
+    return pd.DataFrame(tables.build({"family": "shipped", "name": name, "thin": 1, "p_unit": p_unit}))
 
 
 @st.composite
@@ -58,7 +58,11 @@ def strategy_(draw):
         "tau": draw(st.floats(30.0, 600.0)),
         "M": 10.0 ** draw(st.floats(1.0, 6.0)),
         "p_i": draw(st.floats(3000.0, 11500.0)),
-        "levels": [draw(st.floats(0.05, 0.95)) for _ in range(k)],
+        # frac-face pressure as a fraction of initial pressure: down to a few psi above the table's first row (a well
+        # on compression / a low-pressure reservoir), not only the hundreds of psi of the examples
+        "levels": [draw(st.one_of(st.floats(0.05, 0.95), st.floats(0.004, 0.95))) for _ in range(k)],
+        # unit of every pressure involved (table, production record, limits): psi, MPa, bar, Pa
+        "p_unit": draw(st.sampled_from([1.0, 1.0, 1.0, 6.894757e-3, 0.06894757, 6894.757])),
         "breaks": sorted(draw(st.floats(0.05, 0.95)) for _ in range(k - 1)),
         "noise": draw(st.sampled_from([0.0, 0.0, 0.02])),
         "seed": draw(st.integers(0, 10**6)),
@@ -98,7 +102,7 @@ def schedule(c):
     if c["noise"]:
         rng = np.random.default_rng(c["seed"])
         pf = pf * np.exp(c["noise"] * rng.standard_normal(n))
-    return np.clip(pf, 20.0, 0.97 * c["p_i"])
+    return np.clip(pf, 11.0, 0.97 * c["p_i"])
 
 
 NX_ANCHORED = 80  # the objective's single-phase model has 80 nodes (anchored mechanism of the property)
@@ -152,11 +156,15 @@ def check_case(case) -> Result:
     res = Result()
     res.labels["kind"] = case["kind"]
     res.labels["table"] = case["table"]
-    table = pvt(case["table"])
+    unit = float(case.get("p_unit", 1.0))
+    res.labels["p_unit"] = str(unit)
+    table = pvt(case["table"], unit)
     n, tau, M, p_i = case["n"], case["tau"], case["M"], case["p_i"]
-    p_i = min(p_i, float(table["pressure"].iloc[-1]) * 0.95)
+    p_i = min(p_i, float(table["pressure"].iloc[-1]) / unit * 0.95)
     c = dict(case, p_i=p_i)
-    pf = schedule(c)
+    pf = schedule(c) * unit  # generated in psi, handed over in the case's unit like the table
+    p_i = p_i * unit
+    res.labels["fracface_below_14.7"] = bool(np.min(pf) < 14.7)
     days = np.arange(n, dtype=float)
     _NX["observed"] = None
     probe = Parameters()
@@ -203,7 +211,7 @@ def check_case(case) -> Result:
         pres[case["nan_days"]] = np.nan
     gas_col, pres_col = gas, pres
     res.labels["int_columns"] = False
-    if case.get("int_columns") and float(np.max(gas)) >= 50.0 and not np.any(np.isnan(pres)):
+    if case.get("int_columns") and float(np.max(gas)) >= 50.0 and not np.any(np.isnan(pres)) and float(np.min(pres)) >= 100.0:
         gas = np.where(gas > 0, np.maximum(1.0, np.rint(gas)), 0.0)
         pres = np.rint(pres)
         gas_col, pres_col = gas.astype(np.int64), pres.astype(np.int64)
